@@ -149,6 +149,7 @@ func propC01(rec *stats.Rec, sc *scratch, auto bool) func(t *rapid.T) {
 		cache, _ := cdi.NewCache(cdi.WithSpecDirs(l.Paths()...), cdi.WithAutoRefresh(auto))
 		if auto {
 			defer cache.Configure(cdi.WithAutoRefresh(false))
+			undecidedIfNoInotify(t, cache)
 		}
 		step := 0
 		mutated := "initial"
